@@ -297,33 +297,32 @@ example : PermLawful unitInterp permRules permPairs permFin (fun _ x => x) (fun 
 /-! ## Round 4 — units -/
 namespace C15Facts
 theorem kw_classified : sigs.all (fun s => s.params.all (fun p => (kwExpected p.1).isSome)) = true := by decide +kernel
-theorem table_units : table.all (modelUnitsOK table sigs true) = true := by decide +kernel
-theorem ref_site_models :
-    (table.filter (fun m => !(refSites table sigs m).isEmpty)).map (·.name)
-      = [nm! "Demographics1D.growth", nm! "Demographics2D.bottlegrowth_2d", nm! "Demographics2D.bottlegrowth_split",
-         nm! "Demographics2D.bottlegrowth_split_mig", nm! "Demographics2D.IM", nm! "portik_models_2d.vic_no_mig",
-         nm! "portik_models_2d.vic_anc_sym_mig", nm! "portik_models_2d.vic_anc_asym_mig",
-         nm! "portik_models_2d.vic_sec_contact_sym_mig", nm! "portik_models_2d.vic_sec_contact_asym_mig",
-         nm! "portik_models_2d.founder_nomig", nm! "portik_models_2d.founder_sym", nm! "portik_models_2d.founder_asym",
-         nm! "portik_models_2d.vic_no_mig_admix_early", nm! "portik_models_2d.vic_no_mig_admix_late",
-         nm! "portik_models_2d.vic_two_epoch_admix", nm! "portik_models_2d.founder_nomig_admix_early",
-         nm! "portik_models_2d.founder_nomig_admix_late", nm! "portik_models_2d.founder_nomig_admix_two_epoch",
-         nm! "DemogSelModels.IM_sel", nm! "DemogSelModels.IM_sel_single_gamma", nm! "DemogSelModels.bottlegrowth_2d_sel",
-         nm! "DemogSelModels.bottlegrowth_2d_sel_single_gamma", nm! "DemogSelModels.bottlegrowth_split_sel",
-         nm! "DemogSelModels.bottlegrowth_split_sel_single_gamma", nm! "DemogSelModels.bottlegrowth_split_mig_sel",
-         nm! "DemogSelModels.bottlegrowth_split_mig_sel_single_gamma", nm! "DemogSelModels.growth_sel"]
-    ∧ dedup (table.flatMap (refSites table sigs))
+/-- one pass over the symbolic run of every model: units under the reference-size convention, the reference-size sites,
+    strict units of the reference-explicit run -/
+theorem table_units_summary :
+    table.all (modelUnitsSummaryOK table sigs Pairs.refSiteTable Pairs.refInsideModels) = true := by decide +kernel
+theorem ref_tables :
+    Pairs.refSiteTable.all (fun e => (findModel table e.1).isSome && !e.2.isEmpty) = true
+    ∧ Pairs.refSiteTable.length = 28
+    ∧ dedup (Pairs.refSiteTable.flatMap (·.2))
       = [(nm! "Integration.one_pop", nm! "nu"), (nm! "Integration.two_pops", nm! "nu1"),
-         (nm! "Integration.two_pops", nm! "nu2")] := by
+         (nm! "Integration.two_pops", nm! "nu2")]
+    ∧ Pairs.refInsideModels.all (fun n => (findModel table n).isSome && (Pairs.refSiteTable.lookup n).isSome) = true
+    ∧ Pairs.refInsideModels.length = 11 := by
   decide +kernel
-theorem ref_inside_models :
-    (table.filter (fun m => !modelRefExplicitOK table sigs m)).map (·.name)
-      = [nm! "Demographics1D.growth", nm! "Demographics2D.IM", nm! "portik_models_2d.founder_nomig",
-         nm! "portik_models_2d.founder_sym", nm! "portik_models_2d.founder_asym",
-         nm! "portik_models_2d.founder_nomig_admix_early", nm! "portik_models_2d.founder_nomig_admix_late",
-         nm! "portik_models_2d.founder_nomig_admix_two_epoch", nm! "DemogSelModels.IM_sel",
-         nm! "DemogSelModels.IM_sel_single_gamma", nm! "DemogSelModels.growth_sel"] := by
-  decide +kernel
+
+theorem summary_of_mem {m : Model} (hm : m ∈ table) :
+    ∃ t, symbolicRun table sigs m.name (m.paramNames.map .param) = some t ∧ unitsTr true t = true
+      ∧ refSitesOf t = (Pairs.refSiteTable.lookup m.name).getD []
+      ∧ unitsTr false (refExplicit t) = !(Pairs.refInsideModels.contains m.name) := by
+  have h := List.all_eq_true.mp table_units_summary m hm
+  unfold modelUnitsSummaryOK at h
+  cases hs : symbolicRun table sigs m.name (m.paramNames.map .param) with
+  | none => rw [hs] at h; cases h
+  | some t =>
+      rw [hs] at h
+      simp only [Bool.and_eq_true, beq_iff_eq] at h
+      exact ⟨t, rfl, h.1.1, h.1.2, h.2⟩
 end C15Facts
 
 /-- every keyword of every primitive signature read from the source has an expected unit (a new keyword must be classified) -/
@@ -339,7 +338,12 @@ theorem C15_units_keywords_classified :
     literal `0` has every unit.  Stated under the **reference-size convention** (a dimensionless quantity in a Size or
     Theta position is that multiple of the reference size / reference θ); the strict form is `C15_units_reference_sites`.
     A keyword that receives a parameter of another family (`T=nu1`, `m12=gamma1`) falsifies this statement. -/
-theorem C15_units : table.all (modelUnitsOK table sigs true) = true := C15Facts.table_units
+theorem C15_units : table.all (modelUnitsOK table sigs true) = true := by
+  rw [List.all_eq_true]
+  intro m hm
+  obtain ⟨t, hs, hu, _, _⟩ := C15Facts.summary_of_mem hm
+  unfold modelUnitsOK
+  rw [hs]; exact hu
 
 /-- the check is not vacuous: it refuses `T=nu1`, `m12=gamma1`, `nu1=T`, `gamma=m`, an exponent with a unit (`x**(1/T)`),
     a sum of a size and a time; it accepts `nu=nuEu0*(nuEu/nuEu0)**(t/TEuAs)` (Size), `T=Ts-T`, `nu1=1-s` (reference-size
@@ -358,29 +362,23 @@ example :
   decide +kernel
 
 /-- **where a literal stands for the reference size** (strict units).  Apart from the two defaults every library call
-    inherits — `theta0 = 1` (the reference θ) in every integrator and `nu = 1` (the ancestral size) in `PhiManip.phi_1D` — a
-    dimensionless quantity sits in a Size position in exactly these 28 models, and only at `one_pop(nu=…)`,
-    `two_pops(nu1=…, nu2=…)`: the literal sizes `1` of the `bottlegrowth_split*` family and of `IM_sel` (`nuPre = 1`), the
-    fractions `s`, `1-s` of the Portik `vic_*`/`founder_*` models and of `IM`, and `exp(log(nu)·t/T)` in `growth`.
-    Everywhere else the strict check agrees with `C15_units`. -/
+    inherits — `theta0 = 1` (the reference θ) in every integrator and `nu = 1` (the ancestral size) in `PhiManip.phi_1D` — the
+    arguments that are not strictly well-united are, for every model of the table, exactly the (primitive, keyword) pairs
+    tabled in `Pairs.refSiteTable` (none for a model that is not tabled): 28 models, only `one_pop(nu=…)`,
+    `two_pops(nu1=…, nu2=…)` — the literal sizes `1` of the `bottlegrowth_split*` family and of `IM_sel` (`nuPre = 1`), the
+    fractions `s`, `1-s` of the Portik `vic_*`/`founder_*` models and of `IM`, and `exp(log(nu)·t/T)` in `growth`.  Every one of
+    them is well-united under the reference-size convention (`C15_units`). -/
 theorem C15_units_reference_sites :
-    (table.filter (fun m => !(refSites table sigs m).isEmpty)).map (·.name)
-      = [nm! "Demographics1D.growth", nm! "Demographics2D.bottlegrowth_2d", nm! "Demographics2D.bottlegrowth_split",
-         nm! "Demographics2D.bottlegrowth_split_mig", nm! "Demographics2D.IM", nm! "portik_models_2d.vic_no_mig",
-         nm! "portik_models_2d.vic_anc_sym_mig", nm! "portik_models_2d.vic_anc_asym_mig",
-         nm! "portik_models_2d.vic_sec_contact_sym_mig", nm! "portik_models_2d.vic_sec_contact_asym_mig",
-         nm! "portik_models_2d.founder_nomig", nm! "portik_models_2d.founder_sym", nm! "portik_models_2d.founder_asym",
-         nm! "portik_models_2d.vic_no_mig_admix_early", nm! "portik_models_2d.vic_no_mig_admix_late",
-         nm! "portik_models_2d.vic_two_epoch_admix", nm! "portik_models_2d.founder_nomig_admix_early",
-         nm! "portik_models_2d.founder_nomig_admix_late", nm! "portik_models_2d.founder_nomig_admix_two_epoch",
-         nm! "DemogSelModels.IM_sel", nm! "DemogSelModels.IM_sel_single_gamma", nm! "DemogSelModels.bottlegrowth_2d_sel",
-         nm! "DemogSelModels.bottlegrowth_2d_sel_single_gamma", nm! "DemogSelModels.bottlegrowth_split_sel",
-         nm! "DemogSelModels.bottlegrowth_split_sel_single_gamma", nm! "DemogSelModels.bottlegrowth_split_mig_sel",
-         nm! "DemogSelModels.bottlegrowth_split_mig_sel_single_gamma", nm! "DemogSelModels.growth_sel"]
-    ∧ dedup (table.flatMap (refSites table sigs))
+    (∀ m ∈ table, refSites table sigs m = (Pairs.refSiteTable.lookup m.name).getD [])
+    ∧ Pairs.refSiteTable.all (fun e => (findModel table e.1).isSome && !e.2.isEmpty) = true
+    ∧ Pairs.refSiteTable.length = 28
+    ∧ dedup (Pairs.refSiteTable.flatMap (·.2))
       = [(nm! "Integration.one_pop", nm! "nu"), (nm! "Integration.two_pops", nm! "nu1"),
-         (nm! "Integration.two_pops", nm! "nu2")] :=
-  C15Facts.ref_site_models
+         (nm! "Integration.two_pops", nm! "nu2")] := by
+  refine ⟨fun m hm => ?_, C15Facts.ref_tables.1, C15Facts.ref_tables.2.1, C15Facts.ref_tables.2.2.1⟩
+  obtain ⟨t, hs, _, hr, _⟩ := C15Facts.summary_of_mem hm
+  unfold refSites
+  rw [hs]; exact hr
 
 /-- **homogeneity** (semantic content of the unit system): in every interpretation with an action `A.sc` of the unit group
     on its scalars (`UnitAction`: compatible with `+ - * /`, fixing the literal 0), an expression of unit `ut` evaluated at the
@@ -433,17 +431,17 @@ theorem C15_program_scale {I : Interp} (A : UnitAction I) (r : Bool) (hP : PrimS
     runTr I ρ' t = runTr I ρ t :=
   runTr_scale A hP hρ t h
 
-/-- the 11 models in which the reference size sits *inside* a size function (`s·(nu/s)^(t/T)` with `s` a fraction of the
-    reference size, `exp(log(nu)·t/T)`), so that making it explicit at keyword level does not give a strictly well-united
-    program; for the other 93 models it does -/
+/-- the 11 models of `Pairs.refInsideModels` are exactly those in which the reference size sits *inside* a size function
+    (`s·(nu/s)^(t/T)` with `s` a fraction of the reference size, `exp(log(nu)·t/T)`), so that making it explicit at keyword
+    level does not give a strictly well-united program; for the other 93 models it does -/
 theorem C15_program_scale_exceptions :
-    (table.filter (fun m => !modelRefExplicitOK table sigs m)).map (·.name)
-      = [nm! "Demographics1D.growth", nm! "Demographics2D.IM", nm! "portik_models_2d.founder_nomig",
-         nm! "portik_models_2d.founder_sym", nm! "portik_models_2d.founder_asym",
-         nm! "portik_models_2d.founder_nomig_admix_early", nm! "portik_models_2d.founder_nomig_admix_late",
-         nm! "portik_models_2d.founder_nomig_admix_two_epoch", nm! "DemogSelModels.IM_sel",
-         nm! "DemogSelModels.IM_sel_single_gamma", nm! "DemogSelModels.growth_sel"] :=
-  C15Facts.ref_inside_models
+    (∀ m ∈ table, modelRefExplicitOK table sigs m = !(Pairs.refInsideModels.contains m.name))
+    ∧ Pairs.refInsideModels.all (fun n => (findModel table n).isSome && (Pairs.refSiteTable.lookup n).isSome) = true
+    ∧ Pairs.refInsideModels.length = 11 := by
+  refine ⟨fun m hm => ?_, C15Facts.ref_tables.2.2.2.1, C15Facts.ref_tables.2.2.2.2⟩
+  obtain ⟨t, hs, _, _, hx⟩ := C15Facts.summary_of_mem hm
+  unfold modelRefExplicitOK
+  rw [hs]; exact hx
 
 /-- **the library models are independent of the reference size**: a library model fixes the ancestral size and θ0 to the
     literal 1.  For every model of the table outside `C15_program_scale_exceptions`, its run `t` with the reference size and
